@@ -2,6 +2,6 @@ SPECIFICATION Spec
 CONSTANTS
   Base = "fragemsg"
   MaxOps = 3
-  OpKinds = {"free", "unk", "swap", "large", "spare"}
+  OpKinds = {"free", "unk", "swap", "large", "spare", "opt"}
 INVARIANTS LayoutInvariant Emit
 CHECK_DEADLOCK FALSE
